@@ -52,7 +52,7 @@ def g_class_shape(R, tier):
             # named keywords, a run of **mappings, named keywords; the metaclass keyword between them
             K1, KS, K2 = CL.seg("K1", kw), CL.seg("KS", star), CL.seg("K2", kw)
             kws = [K1, KS, K2] if meta == "type" else [K1, ast.keyword(arg="metaclass", value=CL.src("META")), KS, K2]
-            node = ast.ClassDef(name="C", bases=[CL.seg("BASE", lambda t: CL.src(t))], keywords=kws, body=[], decorator_list=[], lineno=3, col_offset=0)
+            node = ast.ClassDef(name="C", bases=[CL.seg("BASE", lambda t: CL.src(t))], keywords=kws, body=CL.fn_body(), decorator_list=[], lineno=3, col_offset=0)
             symt = Opaque(("cls", "symt"), object, methods=dict(get_lineno=lambda o: 3, get_name=lambda o: "C"))
             inner = CL.mk_nsp("cls", kinds=("class",), symt=symt, class_member_dict_expr=ast.Name(id=Hole("clsdict", "ident", fresh=True)))
             outer = CL.mk_nsp("outer", inner_nsp=[inner])
@@ -198,7 +198,7 @@ def g_methods(R, tier):
                 def run(c):
                     m = Machine(stubs=stubs())
                     node = ast.FunctionDef(name=name, args=ast.arguments(posonlyargs=[], args=[], kwonlyargs=[], kw_defaults=[], defaults=[]),
-                                           body=[], decorator_list=[CL.seg("DEC", lambda t: CL.src(t))], returns=None, lineno=7, col_offset=0)
+                                           body=CL.fn_body(), decorator_list=[CL.seg("DEC", lambda t: CL.src(t))], returns=None, lineno=7, col_offset=0)
                     inner = c07.mk_function_nsp(node, is_method=is_method, zero_arg_super_used=uses_super)
                     outer = CL.mk_nsp("outer", inner_nsp=[inner])
                     self_ = CL.mk_pending(pn.PendingFunctionDef, node, outer, CL.mk_global(), m=m)
@@ -326,6 +326,10 @@ CLASS_PROGRAMS = [
     "A = 5\nclass A:\n    y = A\nlog = []\ndef d(c):\n    log.append(X)\n    return 7\nX = 1\n@d\nclass X:\n    z = X\nr = (A.y, log, X)\n",
     "class A:\n    def me(self):\n        return __class__\n    def name(self):\n        return A\nB = A\nA = None\nr = (B().me() is B, B().name())\n",
     "class A:\n    pass\nr = (A.__module__ == __name__, A.__name__)\n",
+    # zero-argument super() takes the FIRST positional parameter, positional-only ones included; inside a lambda of the script, that lambda's
+    "class P:\n    def label(self):\n        return 'P:' + self.tag\nclass Q(P):\n    tag = 'q'\n    def m(self, /, other):\n        return super().label() + other.tag\n"
+    "    def n(me, other, /, *rest):\n        k = 0\n        while super().label() and k < 1:\n            k += 1\n        return super().label()\n"
+    "class O(Q):\n    tag = 'o'\nr = (Q().m(O()), O().n(Q()))\n",
     "class A:\n    n = 0\n    while n < 6:\n        n += 2\n    if n > 5:\n        big = True\n    class Inner:\n        z = 9\nr = (A.n, A.big, A.Inner.z)\n",
 ]
 
